@@ -11,6 +11,18 @@
      number of blank lines between entries (subject to the attachment rule); blank lines at the
      start; final newline.
    `wf_resource t` (executable) states what the grammar requires of the content.
+   Indentation rule of a multi-line value (of a message, a term, an attribute or a variant): the parser removes
+   the indentation that all lines of a value have in common; a line that continues the line of the '=' or of the
+   variant key (INLINE form) does not take part in that.  So a tree whose continuation lines are ALL indented
+   deeper than its first line is faithful only in BLOCK form (value on the lines after the '=' / the key, where
+   the first line is indented like the others): `render_value_with` (used by render_value and render_variant)
+   prints such a value (`needs_block`) in block form whatever the layout choice, and `wf_value` /
+   lines_ok_pattern (wf_pattern_lines_top) accept it if its first byte allows a block start; in inline form the
+   parser would strip the extra indentation and return another tree.  The FIRST line of a value may be indented as
+   well (reference fixture multiline_values.ftl, key10: "  two\nzero\n    four"): again block form only, and then
+   some other line is not indented (else the indentation would be common and not part of the tree).
+   (wf_pattern_lines is the stricter rule "first line not indented, some continuation line at indentation 0": the
+   values that may be printed in either form.)
    The property C02 is:  wf_resource t = true -> parse (render cs t) = Done (split t, []) for all cs,
    where the parser's tree equals t after joining adjacent text elements (`join_resource`).
 
@@ -87,6 +99,52 @@ Definition render_text (base : nat) (continues : bool) (v : bytes) : R bytes :=
   | l0 :: r => rest <~ render_text_lines base continues r ;; rret (l0 ++ rest)
   end.
 
+(* Can the pattern start on its own line (block form)?  Its first line is then a continuation line:
+   it must not begin with '.', '[' or '*'.  (A pattern that begins with a placeable may.) *)
+Definition first_byte_ok_for_block (p : pattern) : bool :=
+  match pattern_elements p with
+  | TextElement (b :: _) :: _ => negb (N.eqb b 46 || N.eqb b 91 || N.eqb b 42)
+  | _ => true
+  end.
+
+(* line-level view of a pattern: its flattened text skeleton; placeables count as the non-blank character '{' *)
+Definition skeleton (p : pattern) : bytes :=
+  flat_map (fun el => match el with TextElement v => v | PlaceableElement _ => [123%N] end) (pattern_elements p).
+
+Fixpoint min_list (l : list nat) : option nat :=
+  match l with
+  | [] => None
+  | x :: r => match min_list r with Some m => Some (Nat.min x m) | None => Some x end
+  end.
+
+(* the smallest indentation of the non-blank lines after the first one *)
+Definition rest_indent (p : pattern) : option nat :=
+  min_list (map leading_spaces (filter (fun l => negb (is_blank_line l)) (tl (lines_of (skeleton p))))).
+
+(* the indentation of the first line *)
+Definition first_indent (p : pattern) : nat := leading_spaces (hd [] (lines_of (skeleton p))).
+
+(* every continuation line is indented, or the first line is: only the block form keeps that indentation *)
+Definition needs_block (p : pattern) : bool :=
+  negb (Nat.eqb (first_indent p) 0) || match rest_indent p with Some m => negb (Nat.eqb m 0) | None => false end.
+
+(* A value (of a message, a term, an attribute, a variant) after '=' or ']': INLINE form (the value starts on
+   that line) or BLOCK form (line end, optional blank line, then every line of the value, the first included,
+   indented by the same base).  `rp base` prints the pattern with continuation lines indented by `base`.
+   block_ok: the first byte of the pattern may start a line; needs: only the block form is faithful. *)
+Definition render_value_with (rp : nat -> R bytes) (block_ok needs : bool) (ind : nat) : R bytes :=
+  block <~ choose 3 ;;
+  if (Nat.eqb block 2 || needs) && block_ok then
+    b <~ blank_inline_opt ;; e <~ eol ;;
+    blanks <~ choose 2 ;;
+    e2 <~ (if Nat.eqb blanks 1 then x <~ eol ;; rret (sp 2 ++ x) else rret []) ;;
+    (* block start: every line, the first included, is indented by the same base *)
+    extra <~ choose 3 ;;
+    s <~ rp (ind + extra) ;;
+    rret (cat [b; e; e2; sp (ind + extra); s])
+  else
+    b <~ blank_inline_opt ;; extra <~ choose 3 ;; s <~ rp (ind + extra) ;; rret (b ++ s).
+
 (* ---- expressions ---- *)
 Definition id_char (b : N) : bool :=
   (N.leb 65 b && N.leb b 90) || (N.leb 97 b && N.leb b 122) || (N.leb 48 b && N.leb b 57) || N.eqb b 45 || N.eqb b 95.
@@ -142,11 +200,12 @@ with render_variant (ind : nat) (v : variant) : R bytes :=
   | Variant key value default =>
       k <~ choose 3 ;;                     (* extra spaces / blank line before the variant *)
       pre <~ (if Nat.eqb k 2 then e <~ eol ;; rret (sp 1 ++ e) else rret []) ;;
-      b1 <~ blank_opt ;; b2 <~ blank_opt ;; b3 <~ blank_inline_opt ;;
-      extra <~ choose 3 ;;
-      p <~ render_pattern_inline (ind + 4 + extra) value ;;
+      b1 <~ blank_opt ;; b2 <~ blank_opt ;;
+      (* the value, inline or in block form, as after '='; its lines are indented by ind + 4 + (0..2) *)
+      p <~ render_value_with (fun base => render_pattern_inline base value)
+             (first_byte_ok_for_block value) (needs_block value) (ind + 4) ;;
       e2 <~ eol ;;
-      rret (cat [pre; sp (ind + k); (if default then [42%N] else []); [91%N]; b1; render_key key; b2; [93%N]; b3; p; e2])
+      rret (cat [pre; sp (ind + k); (if default then [42%N] else []); [91%N]; b1; render_key key; b2; [93%N]; p; e2])
   end
 
 (* the elements of a pattern, starting on the current line; continuation lines indented by base *)
@@ -191,27 +250,9 @@ with render_args (ca : call_args) : R bytes :=
       rret (cat [[40%N]; b0; body; b9; [41%N]])
   end.
 
-(* Can the pattern start on its own line (block form)?  Its first line is then a continuation line:
-   it must not begin with '.', '[' or '*'.  (A pattern that begins with a placeable may.) *)
-Definition first_byte_ok_for_block (p : pattern) : bool :=
-  match pattern_elements p with
-  | TextElement (b :: _) :: _ => negb (N.eqb b 46 || N.eqb b 91 || N.eqb b 42)
-  | _ => true
-  end.
-
 (* value of a message / term / attribute after '=' *)
 Definition render_value (ind : nat) (p : pattern) : R bytes :=
-  block <~ choose 3 ;;
-  if Nat.eqb block 2 && first_byte_ok_for_block p then
-    b <~ blank_inline_opt ;; e <~ eol ;;
-    blanks <~ choose 2 ;;
-    e2 <~ (if Nat.eqb blanks 1 then x <~ eol ;; rret (sp 2 ++ x) else rret []) ;;
-    (* block start: every line, the first included, is indented by the same base *)
-    extra <~ choose 3 ;;
-    s <~ render_pattern_inline (ind + extra) p ;;
-    rret (cat [b; e; e2; sp (ind + extra); s])
-  else
-    b <~ blank_inline_opt ;; extra <~ choose 3 ;; s <~ render_pattern_inline (ind + extra) p ;; rret (b ++ s).
+  render_value_with (fun base => render_pattern_inline base p) (first_byte_ok_for_block p) (needs_block p) ind.
 
 Definition render_attribute (a : attribute) : R bytes :=
   e <~ eol ;; k <~ choose 3 ;; b1 <~ blank_inline_opt ;;
@@ -431,17 +472,7 @@ with wf_args (ca : call_args) : bool :=
       no_dup_names named []
   end.
 
-(* line-level rules of a pattern, on its flattened text skeleton: placeables count as the non-blank
-   character '{'.  skeleton = the pattern's text with every placeable replaced by "{" *)
-Definition skeleton (p : pattern) : bytes :=
-  flat_map (fun el => match el with TextElement v => v | PlaceableElement _ => [123%N] end) (pattern_elements p).
-
-Fixpoint min_list (l : list nat) : option nat :=
-  match l with
-  | [] => None
-  | x :: r => match min_list r with Some m => Some (Nat.min x m) | None => Some x end
-  end.
-
+(* line-level rules of a pattern, on its flattened text skeleton (`skeleton`, above) *)
 Definition wf_pattern_lines (p : pattern) : bool :=
   let ls := lines_of (skeleton p) in
   match ls with
@@ -459,6 +490,34 @@ Definition wf_pattern_lines (p : pattern) : bool :=
       | Some m => Nat.eqb m 0
       | None => true
       end
+  end.
+
+(* the rule for every value (of a message, a term, an attribute, a variant): as wf_pattern_lines, but if every
+   continuation line is indented, the value is still faithful in block form, provided its first byte may start
+   a block line (render_value_with prints it so) *)
+Definition wf_pattern_lines_top (p : pattern) : bool :=
+  let ls := lines_of (skeleton p) in
+  match ls with
+  | [] => false
+  | l0 :: rest =>
+      negb (is_blank_line l0) &&
+      (let last := List.last ls [] in negb (is_blank_line last) && Nat.eqb (leading_spaces (rev last)) 0) &&
+      forallb (fun l => is_blank_line l || line_start_ok l) rest &&
+      forallb (fun l => negb (is_blank_line l) || Nat.eqb (length l) 0) rest &&
+      (* the indentation the lines have in common is not part of the tree: it is 0 *)
+      (if Nat.eqb (leading_spaces l0) 0 then
+         match min_list (map leading_spaces (filter (fun l => negb (is_blank_line l)) rest)) with
+         | Some m => Nat.eqb m 0 || first_byte_ok_for_block p
+         | None => true
+         end
+       else
+         (* the first line is indented: block form, where it is a line like the others (its first byte after the
+            indentation is none of . [ * ) and some other line is not indented *)
+         line_start_ok l0 &&
+         match min_list (map leading_spaces (filter (fun l => negb (is_blank_line l)) rest)) with
+         | Some m => Nat.eqb m 0
+         | None => false
+         end)
   end.
 
 (* all patterns of an expression tree satisfy the line rules *)
@@ -485,7 +544,7 @@ with lines_ok_expr (e : expression) : bool :=
 with lines_ok_pattern (p : pattern) : bool :=
   match p with
   | Pattern els =>
-      wf_pattern_lines p &&
+      wf_pattern_lines_top p &&
       (fix go (l : list pattern_element) : bool :=
          match l with
          | [] => true
@@ -494,12 +553,12 @@ with lines_ok_pattern (p : pattern) : bool :=
          end) els
   end.
 
+(* value of a message / term / attribute (and, inside lines_ok_expr, of a variant) *)
 Definition wf_value (p : pattern) : bool := wf_pattern p && lines_ok_pattern p.
 
 Definition wf_comment_line (l : bytes) : bool := forallb (fun b => negb (N.eqb b 10 || N.eqb b 13)) l.
 Definition wf_comment (c : comment) : bool :=
   negb (match content c with [] => true | _ => false end) && forallb wf_comment_line (content c).
-
 Definition wf_attribute (a : attribute) : bool := wf_identifier (attr_id a) && wf_value (attr_value a).
 
 Definition wf_entry (e : entry) : bool :=
